@@ -147,6 +147,59 @@ def jitter_and_real_values(v):
             w.close()
 
 
+def liveness_is_per_ike_sa(v):
+    """Liveness belongs to the IKE_SA, not to the peer's address: two IKE_SAs with one peer (simultaneous initiation), the peer loses ONE of them (it restarted
+    and that IKE_SA is gone there) while the other one stays busy (its own liveness probes every few seconds, all answered).  The orphaned IKE_SA is probed
+    after its own DPD interval and is gone - with its kernel SAs - within DPD interval + retransmission budget, whatever happens on the other one."""
+    dpd = 10
+    w = wd.World(seed=common.SEED, opts={'dpd': dpd, 'lifetime': 100000}, jitter=0.0)
+    try:
+        ra, rb = w.acquire('A', sport=0, dport=0), w.acquire('B', sport=0, dport=0)
+        for first, e in ((ra, 'A'), (rb, 'B')):
+            m, cur = first, e
+            while m is not None:
+                nxt = w.peer_of(cur)
+                m, cur = w.dispatch(nxt, m, cur), nxt
+        if len(w.sas('A')) != 2 or len(w.sas('B')) != 2 or any(x.state.name != 'ESTABLISHED' for x in w.sas('A') + w.sas('B')):
+            raise common.MachineryError('simultaneous initiation did not give two established IKE_SAs per endpoint')
+        orphan = w.sas('A')[0]
+        gone_at_b = next(x for x in w.sas('B') if bytes(x.my_spi) == bytes(orphan.peer_spi))
+        w.ctl['B'].ike_sas.remove(gone_at_b)                 # the peer has lost this IKE_SA; the other one lives on
+        live_b = w.sas('B')[0]
+        t0, probes = w.now, 0
+        budget = dpd + T.code_constants()['RetxDelay'] * sum(range(1, T.code_constants()['MaxRetx'] + 1)) + T.code_constants()['MaxRetx'] + 3
+        for tick in range(budget + 10):
+            w.now += 1.0
+            if tick % 4 == 0:                                # traffic on the live IKE_SA: the peer probes, we answer
+                live_b.start_dpd_at = w.now - 1
+                q = w.timer('B', live_b, 'check_dead_peer_detection_timer')
+                if q is not None:
+                    r = w.dispatch('A', q, 'B')
+                    if r is not None:
+                        w.dispatch('B', r, 'A')
+            for kind, sa, d in w.sweep('A'):
+                if d is not None and sa is orphan:
+                    probes += 1
+                    w.dispatch('B', d, 'A')                  # unknown SPI at the peer: never answered
+                elif d is not None:
+                    r = w.dispatch('B', d, 'A')
+                    if r is not None:
+                        w.dispatch('A', r, 'B')
+            if orphan not in w.ctl['A'].ike_sas:
+                break
+        elapsed = w.now - t0
+        still = orphan in w.ctl['A'].ike_sas
+        v.coverage['liveness_per_ike_sa'] = {'dpd': dpd, 'bound_s': budget, 'transmissions_on_the_orphaned_ike_sa': probes, 'removed_after_s': None if still else elapsed}
+        if still or probes == 0 or elapsed > budget:
+            v.violation(f'two IKE_SAs with one peer, one of them lost by the peer: after {elapsed:.0f} s the orphaned IKE_SA is {"still listed" if still else "gone"} '
+                        f'({probes} transmissions on it; DPD interval {dpd} s, bound {budget} s) - traffic on the OTHER IKE_SA must not stand in for its liveness',
+                        {'probes': probes}, signature={'component': 'liveness:per-ike-sa'})
+    except wd.Escape as ex:
+        v.violation(f'liveness per IKE_SA: {ex}', {}, signature={'component': 'liveness:escape'})
+    finally:
+        w.close()
+
+
 def run(tier, replay=None):
     v = common.Verdict('C13', tier, 'model_checking')
     if replay:
@@ -167,6 +220,7 @@ def run(tier, replay=None):
         return v.finish()
     timer_models(v, tier)
     shared_proposal(v)
+    liveness_is_per_ike_sa(v)
     jitter_and_real_values(v)
     v.assumptions += ['spacing is asserted per schedule class (fine sweeps: two-sided; uniform tick with one sweep per tick: non-decreasing; '
                       'mixed schedules: budget, identity and give-up only - observation O-9)',
